@@ -4,7 +4,7 @@
    Copy/CopyGraph.  A trace quantifier covers every interleaving and every latency
    assignment (a latency assignment only selects an interleaving of the visible events). *)
 From Oras Require Import Base.Prelude Generated.GC04 Model.CopySpec Model.CopyTop Model.CopyOpt
-  Proofs.CopySpec Proofs.CopyAcct Proofs.CopyOpt.
+  Proofs.CopySpec Proofs.CopyAcct Proofs.CopyOpt Proofs.CopyAbort.
 Local Open Scope nat_scope.
 From Oras Require Model.CopyImpl Proofs.CopyImplBase Properties.C02_protocol.
 
@@ -240,3 +240,78 @@ Theorem C04_inflight_bounded_by_permits :
     CopyImpl.inflight s <= CopyImpl.holders s /\ CopyImpl.inflight s <= K.
 Proof. exact C02_protocol.C04_inflight_bounded. Qed.
 Print Assumptions C04_inflight_bounded_by_permits.
+
+(* ---- extension round: "aborts the copy", terminal notifications and uploads counted together ---- *)
+
+(* "an error returned by a callback aborts the copy": the node never completes, hence NO direct
+   predecessor of it is ever copied -- none of the predecessor's PreCopy / PostCopy / MountFrom /
+   OnMounted invocations (returning nil or an error) and none of its Mount calls occurs anywhere in
+   the trace, before or after the failure, in any interleaving.  (Not transitive: a predecessor that
+   the destination already holds is skipped without looking at its successors.) *)
+Theorem C04_failed_successor_blocks_predecessors :
+  forall (g : graph) (c : cfg) (d0 : list node) (tr : list event) (st : state) (k : cbk) (n p : node),
+    accepts g c d0 tr = Some st -> In (CbFail k n) tr -> In n (succ' g p) ->
+    (forall k', k' <> CSkip -> ~ In (Cb k' p) tr /\ ~ In (CbFail k' p) tr) /\
+    ~ In (MtB p) tr /\ (forall r, ~ In (MtE p r) tr).
+Proof. exact failed_successor_blocks_parent. Qed.
+Print Assumptions C04_failed_successor_blocks_predecessors.
+
+(* for every choice of nil callbacks, on the elaborated trace (the invocation point of a nil PreCopy
+   stands right before the node's Fetch / Push) ... *)
+Theorem C04_failed_successor_blocks_predecessors_any_callbacks :
+  forall (g : graph) (c : cfg) (d0 : list node) (cs : cbset) (tr : list event) (st : state)
+         (full : list event) (k : cbk) (n p : node),
+    accepts_opt cs g c d0 tr = Some (st, full) -> In (CbFail k n) tr -> In n (succ' g p) ->
+    forall e, In e full -> copy_ev p e = false.
+Proof. exact failed_successor_blocks_parent_opt. Qed.
+Print Assumptions C04_failed_successor_blocks_predecessors_any_callbacks.
+
+(* ... hence such a predecessor is never uploaded: the only push of it that can occur is the
+   re-push (with the reference) of a root the destination holds already *)
+Theorem C04_failed_successor_predecessor_not_pushed :
+  forall (g : graph) (c : cfg) (d0 : list node) (cs : cbset) (tr : list event) (st : state)
+         (full : list event) (k : cbk) (n p : node) (r : bool) (f1 f2 : list event),
+    accepts_opt cs g c d0 tr = Some (st, full) -> In (CbFail k n) tr -> In n (succ' g p) ->
+    full = f1 ++ PuB p r :: f2 ->
+    exists st1, accepts g c d0 f1 = Some st1 /\ has g (dst st1) p = true.
+Proof. exact failed_successor_parent_not_pushed. Qed.
+Print Assumptions C04_failed_successor_predecessor_not_pushed.
+
+(* the seeded change "close(done) also on failure" yields exactly such a trace; the transition
+   system rejects it (and C04_abort_example: the hypotheses above are satisfiable) *)
+Example C04_abort_example :
+  exists st, accepts g_ab c_ab [] tr_ab = Some st /\ returned st = Some false /\
+             In (CbFail CPre 0) tr_ab /\ In 0 (succ' g_ab 2) /\
+             cnt (is_upload 1) tr_ab = 1 /\ cnt (is_term 1) tr_ab = 1.
+Proof. exact abort_example. Qed.
+Example C04_copy_past_failure_rejected : accepts g_ab c_ab [] tr_ab_bad = None.
+Proof. vm_compute. reflexivity. Qed.
+
+(* PostCopy, OnCopySkipped and OnMounted exclude each other: per node at most ONE terminal
+   notification of any kind (returning nil or an error) ... *)
+Theorem C04_terminal_notification_at_most_once :
+  forall (g : graph) (c : cfg) (d0 : list node) (tr : list event) (st : state) (n : node),
+    accepts g c d0 tr = Some st ->
+    cnt (is_cb CPost n) tr + cnt (is_cb CSkip n) tr + cnt (is_cb CMounted n) tr <= 1.
+Proof. exact term_once_lemma. Qed.
+Print Assumptions C04_terminal_notification_at_most_once.
+
+(* ... and every node a successful copy visited (dst.Exists was called on it) got exactly one --
+   except the already-present root of a ReferencePusher copy (re-pushed with the reference by
+   prepareCopy instead of OnCopySkipped), which gets none *)
+Theorem C04_exactly_one_terminal_notification :
+  forall (g : graph) (c : cfg) (d0 : list node) (tr : list event) (st : state) (n : node),
+    accepts g c d0 tr = Some st -> returned st = Some true -> In (ExB n) tr ->
+    cnt (is_cb CPost n) tr + cnt (is_cb CSkip n) tr + cnt (is_cb CMounted n) tr = 1 \/
+    (root_refpush c n = true /\
+     cnt (is_cb CPost n) tr + cnt (is_cb CSkip n) tr + cnt (is_cb CMounted n) tr = 0).
+Proof. exact exactly_one_terminal. Qed.
+Print Assumptions C04_exactly_one_terminal_notification.
+
+(* single transfer, counting the upload inside Mount: per node at most one of
+   { Push / PushReference called, Mount fell back to uploading } *)
+Theorem C04_single_upload :
+  forall (g : graph) (c : cfg) (d0 : list node) (tr : list event) (st : state) (n : node),
+    accepts g c d0 tr = Some st -> cnt (is_upload n) tr <= 1.
+Proof. exact upload_once_lemma. Qed.
+Print Assumptions C04_single_upload.
